@@ -719,6 +719,7 @@ class _:
     params = dict(dummy_hand=CardSet())
     modifies = ['self._dummy_hand']
     check_inv = False
+    at_calls = 'inline'      # the stored set aliases the argument (the observer removes from it)
     note = 'the invariant after set_dummy_hand needs the caller to pass dummy\'s remaining cards'
 
     def ensures_set(self, dummy_hand):
